@@ -65,11 +65,13 @@ func (r *Runner) execCodec(a []string) string {
 			var b []byte
 			enc.EncodeVarint64(&b, v)
 			out = fmt.Sprintf("%s %d", showBytes(b), enc.Varint64Size(v))
-			c := append([]byte{}, b...)
-			c = append(c, 0x80, 0x01)
-			got, derr := enc.DecodeVarint64(&c)
-			if derr != nil || got != v || len(c) != 2 {
-				r.oracleFail("codec-roundtrip", fmt.Sprintf("varint64 %d -> %x -> %d err=%v rest=%d", v, b, got, derr, len(c)))
+			for _, trailer := range codecTrailers {
+				c := append([]byte{}, b...)
+				c = append(c, trailer...)
+				got, derr := enc.DecodeVarint64(&c)
+				if derr != nil || got != v || len(c) != len(trailer) {
+					r.oracleFail("codec-roundtrip", fmt.Sprintf("varint64 %d -> %x followed by %x -> %d err=%v rest=%d", v, b, trailer, got, derr, len(c)))
+				}
 			}
 			// … and with nothing after it (the last value of a stream)
 			e := append([]byte{}, b...)
@@ -170,12 +172,14 @@ func (r *Runner) execCodec(a []string) string {
 			var b []byte
 			enc.EncodeVarfloat64(&b, v)
 			out = fmt.Sprintf("%s %d", showBytes(b), enc.Varfloat64Size(v))
-			c := append([]byte{}, b...)
-			c = append(c, 0x81, 0x7F)
-			got, derr := enc.DecodeVarfloat64(&c)
 			want := (v + 1) - 1
-			if derr != nil || len(c) != 2 || !(got == want || (math.IsNaN(got) && math.IsNaN(want))) {
-				r.oracleFail("codec-roundtrip", fmt.Sprintf("varfloat64 %016x -> %x -> %v want %v err=%v", bits, b, got, want, derr))
+			for _, trailer := range append([][]byte{{0x81, 0x7F}}, codecTrailers...) {
+				c := append([]byte{}, b...)
+				c = append(c, trailer...)
+				got, derr := enc.DecodeVarfloat64(&c)
+				if derr != nil || len(c) != len(trailer) || !(got == want || (math.IsNaN(got) && math.IsNaN(want))) {
+					r.oracleFail("codec-roundtrip", fmt.Sprintf("varfloat64 %016x -> %x followed by %x -> %v want %v err=%v", bits, b, trailer, got, want, derr))
+				}
 			}
 			e := append([]byte{}, b...)
 			if got, derr := enc.DecodeVarfloat64(&e); derr != nil || len(e) != 0 || !(got == want || (math.IsNaN(got) && math.IsNaN(want))) {
@@ -237,12 +241,19 @@ func (r *Runner) showDec(in, rest []byte, err error, val string) string {
 	return fmt.Sprintf("ok %s %s", val, showBytes(rest))
 }
 
+// what may follow an encoded value in a stream
+var codecTrailers = [][]byte{{0x00}, {0x01}, {0x7f}, {0x80, 0x01}, {0xFF, 0x00}, {0xFF, 0xFF, 0xFF, 0xFF, 0xFF, 0xFF, 0xFF, 0xFF, 0xFF, 0x01}}
+
 func (r *Runner) codecRoundTripU(v uint64, b []byte) {
-	c := append([]byte{}, b...)
-	c = append(c, 0xFF, 0x00)
-	got, err := enc.DecodeUvarint64(&c)
-	if err != nil || got != v || len(c) != 2 {
-		r.oracleFail("codec-roundtrip", fmt.Sprintf("uvarint64 %d -> %x -> %d err=%v rest=%d", v, b, got, err, len(c)))
+	// "decoding consumes exactly the bytes that encoding produced regardless of what follows": followed by
+	// bytes of every class a foreign varint reader could mistake for a continuation or a terminator
+	for _, trailer := range codecTrailers {
+		c := append([]byte{}, b...)
+		c = append(c, trailer...)
+		got, err := enc.DecodeUvarint64(&c)
+		if err != nil || got != v || len(c) != len(trailer) {
+			r.oracleFail("codec-roundtrip", fmt.Sprintf("uvarint64 %d -> %x followed by %x -> %d err=%v rest=%d", v, b, trailer, got, err, len(c)))
+		}
 	}
 	e := append([]byte{}, b...)
 	if got, err := enc.DecodeUvarint64(&e); err != nil || got != v || len(e) != 0 {
